@@ -140,6 +140,12 @@ func relTo(dir, p string) string {
 	return r
 }
 
+// createRefused: the real Create returned an error for a set the harness considers legitimate.  The big-set
+// drivers turn it into a judged event (C01 / C04 ... create_accepts_legitimate_set) instead of dying.
+type createRefused struct{ err error }
+
+func (c *createRefused) Error() string { return "Create refused the set: " + c.err.Error() }
+
 // buildArch writes the protected files into dir, runs the real par2.Create and reads back what
 // it wrote with the independent tokenizer.
 func buildArch(dir string, names []string, prot map[string][]byte, s, r, g int, base string) (*arch, error) {
@@ -186,7 +192,7 @@ func buildArch(dir string, names []string, prot map[string][]byte, s, r, g int, 
 	snapBefore, _ := sandbox.Take(dir)
 	err := par2.Create(index, paths, par2.CreateOptions{SliceByteCount: s, NumParityShards: r, NumGoroutines: g})
 	if err != nil {
-		return nil, fmt.Errorf("par2.Create: %v", err)
+		return nil, &createRefused{err}
 	}
 	snapAfter, _ := sandbox.Take(dir)
 	os.Remove(filepath.Join(dir, "bystander.txt"))
